@@ -43,8 +43,15 @@ KINDS = {"exception": Boom, "keyboardInterrupt": BoomInterrupt, "systemExit": Bo
 INJECTED = (Boom, BoomBase, BoomInterrupt, BoomExit)
 
 
-def sql_of(stmt):
+def sql_of(stmt, ids=None):
     kind, what, e = stmt
+    if what in ("vdel", "vins"):
+        # a migration body that itself writes the version table (used to make alembic's own
+        # rowcount check in HeadMaintainer raise inside the version update)
+        assert kind == "dml"
+        rid = ids[e]
+        return ("DELETE FROM alembic_version WHERE version_num = '%s'" if what == "vdel"
+                else "INSERT INTO alembic_version (version_num) VALUES ('%s')") % rid
     if kind == "ddl":
         assert e % 2 == 0
         return ("CREATE TABLE t_%d (x integer)" if what == "add" else "DROP TABLE t_%d") % (e // 2)
@@ -146,32 +153,40 @@ class Oracle:
         self.create_vt = False
         self.unparsed = []
         self.ctx_getter = None
+        self.in_body = False  # statements issued by the body itself are body atoms, not version statements
+        self.ids = [rid for rid, _ in sorted(rev_index.items(), key=lambda kv: kv[1])]
+        self.tddl_seen = None
 
     def _tick(self):
         if self.fail is not None and self.fail[0] == self.step and self.fail[1] == self.pos:
             raise KINDS[self.fail[2] if len(self.fail) > 2 else "exception"]()
 
-    def body(self, rid, direction):
+    def body(self, rid, direction, engine_name=None):
         self.step += 1
         self.pos = 0
-        self.steps.append({"rid": rid, "dir": direction, "vstmts": []})
+        self.steps.append({"rid": rid, "dir": direction, "vstmts": [], "engine": engine_name})
         ctx = self.ctx_getter()
-        for seg in self.bodies[rid][direction]:
-            if seg["auto"]:
-                self._tick()  # before entering the block
-                with ctx.autocommit_block():
+        self.tddl_seen = bool(ctx.impl.transactional_ddl)
+        self.in_body = True
+        try:
+            for seg in self.bodies[rid][direction]:
+                if seg["auto"]:
+                    self._tick()  # before entering the block
+                    with ctx.autocommit_block():
+                        self.pos += 1
+                        for st in seg["stmts"]:
+                            self._tick()
+                            ctx.execute(sql_of(st, self.ids))
+                            self.pos += 1
+                        self._tick()  # at the end of the block, still inside it
                     self.pos += 1
+                else:
                     for st in seg["stmts"]:
                         self._tick()
-                        ctx.execute(sql_of(st))
+                        ctx.execute(sql_of(st, self.ids))
                         self.pos += 1
-                    self._tick()  # at the end of the block, still inside it
-                self.pos += 1
-            else:
-                for st in seg["stmts"]:
-                    self._tick()
-                    ctx.execute(sql_of(st))
-                    self.pos += 1
+        finally:
+            self.in_body = False
 
     # SQLAlchemy event: before_cursor_execute
     def before_cursor_execute(self, conn, cursor, statement, parameters, context, executemany):
@@ -179,7 +194,7 @@ class Oracle:
         if up.startswith("CREATE TABLE ALEMBIC_VERSION"):
             self.create_vt = True
             return
-        if not is_version_dml(statement) or self.step < 0:
+        if not is_version_dml(statement) or self.step < 0 or self.in_body:
             return
         self._tick()
         v = parse_version_stmt(statement, self.rev_index)
@@ -236,7 +251,8 @@ def run_inprocess(path, hist, bodies, rev_index, cmd, target, config, fail):
         res = "err:" + revfake.exc_class(e)
     finally:
         eng.dispose()
-    orc.tddl_seen = bool(holder["ctx"].impl.transactional_ddl) if "ctx" in holder else None
+    if "ctx" in holder:
+        orc.tddl_seen = bool(holder["ctx"].impl.transactional_ddl)
     return res, orc
 
 
@@ -252,53 +268,79 @@ Revises: %(down)s
 revision = %(rid)r
 down_revision = %(down_py)s
 branch_labels = None
-depends_on = None
+depends_on = %(deps_py)s
 
 
-def upgrade():
+def upgrade(%(args)s):
     from alembic import context
-    context.config.attributes["verif_oracle"].body(%(rid)r, "up")
+    context.config.attributes["verif_oracle"].body(%(rid)r, "up"%(pass_args)s)
 
 
-def downgrade():
+def downgrade(%(args)s):
     from alembic import context
-    context.config.attributes["verif_oracle"].body(%(rid)r, "down")
+    context.config.attributes["verif_oracle"].body(%(rid)r, "down"%(pass_args)s)
 '''
 
+ENV_NEEDLE = "connection=connection, target_metadata=target_metadata"
+ENV_PATCH = "connection=connection, target_metadata=target_metadata, **config.attributes.get('verif_configure', {})"
 
-def make_script_dir(scratch, hist, path):
-    """command.init (generic template, shipped env.py untouched) + one file per revision.
-    returns the Config."""
+
+def _py_tuple(xs):
+    return "None" if not xs else (repr(xs[0]) if len(xs) == 1 else repr(tuple(xs)))
+
+
+def make_script_dir(scratch, hist, path, template="generic", patch_env=False, name="scripts"):
+    """command.init (shipped template) + one file per revision.  returns the Config.
+
+    patch_env=False: the shipped env.py untouched.
+    patch_env=True : the shipped generic env.py with ONE textual change: the online
+      `context.configure(connection=connection, target_metadata=target_metadata)` additionally receives
+      `**config.attributes["verif_configure"]`, the way a user passes transactional_ddl /
+      transaction_per_migration / on_version_apply in his env.py (reaches EnvironmentContext.configure's
+      option plumbing).  cfg.attributes["verif_env_patched"] says whether the needle was found.
+    template="multidb": two databases engine1/engine2 (urls set by the caller)."""
+    import contextlib
+    import io
+
     from alembic import command
     from alembic.config import Config
 
-    cfg = Config(os.path.join(scratch, "alembic.ini"))
-    cfg.set_main_option("script_location", os.path.join(scratch, "scripts"))
-    cfg.set_main_option("sqlalchemy.url", "sqlite:///" + path)
-    import io
-
+    ini = os.path.join(scratch, "%s.ini" % name)
+    sdir = os.path.join(scratch, name)
+    cfg = Config(ini)
+    cfg.set_main_option("script_location", sdir)
     cfg.stdout = io.StringIO()
-    import contextlib
-
     with contextlib.redirect_stdout(io.StringIO()):
-        command.init(cfg, os.path.join(scratch, "scripts"))
-    # command.init wrote alembic.ini; re-read it and point it to our database
-    cfg = Config(os.path.join(scratch, "alembic.ini"))
+        command.init(cfg, sdir, template=template)
+    # command.init wrote the ini; re-read it and point it to our database
+    cfg = Config(ini)
     cfg.stdout = io.StringIO()
-    cfg.set_main_option("script_location", os.path.join(scratch, "scripts"))
-    cfg.set_main_option("sqlalchemy.url", "sqlite:///" + path)
-    vdir = os.path.join(scratch, "scripts", "versions")
+    cfg.set_main_option("script_location", sdir)
+    if path is not None:
+        cfg.set_main_option("sqlalchemy.url", "sqlite:///" + path)
+    patched = False
+    if patch_env:
+        envp = os.path.join(sdir, "env.py")
+        src = open(envp).read()
+        if src.count(ENV_NEEDLE) == 1:
+            with open(envp, "w") as f:
+                f.write(src.replace(ENV_NEEDLE, ENV_PATCH))
+            patched = True
+    cfg.attributes["verif_env_patched"] = patched
+    multi = template == "multidb"
     for r in hist:
         down = r.get("down") or []
-        down_py = "None" if not down else (repr(down[0]) if len(down) == 1 else repr(tuple(down)))
-        with open(os.path.join(vdir, "%s_.py" % r["id"]), "w") as f:
-            f.write(REV_FILE % {"rid": r["id"], "down": ", ".join(down) or "None", "down_py": down_py})
+        with open(os.path.join(sdir, "versions", "%s_.py" % r["id"]), "w") as f:
+            f.write(REV_FILE % {"rid": r["id"], "down": ", ".join(down) or "None", "down_py": _py_tuple(down),
+                                "deps_py": _py_tuple(r.get("deps") or []),
+                                "args": "engine_name" if multi else "", "pass_args": ", engine_name" if multi else ""})
     return cfg
 
 
-def run_command(cfg, bodies, rev_index, cmd, target, engine_mode, fail):
+def run_command(cfg, bodies, rev_index, cmd, target, engine_mode, fail, configure_kw=None, hook=False):
     """alembic.command.upgrade/downgrade through the shipped env.py (pysqlite default; with
-    engine_mode == "recipe" the recipe is installed on the Engine class for the duration)."""
+    engine_mode == "recipe" the recipe is installed on the Engine class for the duration).
+    configure_kw / hook: only with a patched env.py (see make_script_dir)."""
     import logging
 
     from alembic import command, op
@@ -307,6 +349,10 @@ def run_command(cfg, bodies, rev_index, cmd, target, engine_mode, fail):
     orc = Oracle(bodies, rev_index, fail)
     orc.ctx_getter = lambda: op.get_context()
     cfg.attributes["verif_oracle"] = orc
+    kw = dict(configure_kw or {})
+    if hook:
+        kw["on_version_apply"] = orc.on_version_apply
+    cfg.attributes["verif_configure"] = kw
     removers = []
     if engine_mode == "recipe":
         removers.append(install_recipe(Engine))
@@ -314,6 +360,7 @@ def run_command(cfg, bodies, rev_index, cmd, target, engine_mode, fail):
     removers.append(lambda: event.remove(Engine, "before_cursor_execute", orc.before_cursor_execute))
     lvl = logging.root.manager.disable
     logging.disable(logging.CRITICAL)  # the shipped env.py calls fileConfig(); keep the run quiet
+    cwd = os.getcwd()
     try:
         if cmd == "upgrade":
             command.upgrade(cfg, target)
@@ -325,6 +372,7 @@ def run_command(cfg, bodies, rev_index, cmd, target, engine_mode, fail):
     except BaseException as e:
         res = "err:" + revfake.exc_class(e)
     finally:
+        os.chdir(cwd)
         for r in removers:
             r()
         logging.disable(lvl)
@@ -332,8 +380,9 @@ def run_command(cfg, bodies, rev_index, cmd, target, engine_mode, fail):
         for name in ("", "alembic", "sqlalchemy", "sqlalchemy.engine"):
             lg = logging.getLogger(name)
             lg.handlers[:] = []
-            lg.setLevel(logging.WARNING if name else logging.WARNING)
-    orc.tddl_seen = False
+            lg.setLevel(logging.WARNING)
+    if orc.tddl_seen is None:
+        orc.tddl_seen = bool((configure_kw or {}).get("transactional_ddl"))
     return res, orc
 
 
